@@ -142,7 +142,7 @@ Verdict eval_history(const Case &c) {
                 std::vector<P> disp = toPts(cn[h]->displayRoute()), raw = toPts(cn[h]->route());
                 std::string bad = routeInvalid(disp, cc.a, cc.b, now.shapes, 1e-7);
                 if (bad.empty()) bad = routeInvalid(raw, cc.a, cc.b, now.shapes, 1e-7);
-                if (!bad.empty()) { v.fail(fmt("after transaction %d (op #%zu): connector %d: %s; route %s", transactions, oi, h, bad.c_str(), ptsStr(disp).c_str()), "invalid-after-transaction"); break; }
+                if (!bad.empty()) { v.fail(fmt("after transaction %d (op #%zu): connector %d: %s; route %s", transactions, oi, h, bad.c_str(), ptsStr(disp).c_str()), bad.find("[through two of its vertices]") != std::string::npos ? "F26-sight-line-through-two-vertices" : "invalid-after-transaction"); break; }
                 double ci = routeCostOf(m.cfg, cc, cn[h]), cf = routeCostOf(m.cfg, cc, fresh.conns[k]);
                 if (std::fabs(ci - cf) > 1e-6)
                     v.fail(fmt("after transaction %d (op #%zu): connector %d costs %.9f incrementally but %.9f in a fresh router on the same scene; incremental route %s, fresh route %s", transactions, oi, h, ci, cf,
